@@ -320,7 +320,12 @@ def _thaw(p):
 def oracle(case: dict):
     dictIO = native.dictio()
     nodes = decode_nodes(case)
-    env, unresolved = expected_values(nodes)
+    try:
+        env, unresolved = expected_values(nodes)
+    except (TypeError, IndexError, KeyError, ValueError):
+        return None                 # not a well-typed graph (a shrink step can produce one): outside the quantifier
+    if any(isinstance(v, str) and v == "ZERODIV" for v in env.values()):
+        return None                 # division by zero makes eval raise: outside the quantifier (well-typed arithmetic)
     tmp = native.scratch_dir("c05_")
     try:
         for rel, text in case["files"].items():
